@@ -32,12 +32,67 @@ ATTRIB = [
     (LANG, "TextXVisitor.__init__", ("C21", "C20")), (LANG, "_compile_keyword", ("C20", "C21")),
     (RREL, "RRELPath", ("C11", "C12")), (RREL, "RRELVisitor", ("C11", "C12")),
 ]
-def props_for(rel, q):
+def _explicit(rel, q):
     best = None
     for f, pre, ps in ATTRIB:
         if f == rel and (pre == "" or q == pre or q.startswith(pre + ".")):
             if best is None or len(pre) > len(best[0]): best = (pre, ps)
     return best[1] if best else ()
+# Derived attribution: a function called (directly or through one more call) from a function of a property's mechanism
+# belongs to that mechanism too -- a helper that treats a present value as absent breaks every caller's property.
+# Calls are resolved over the whole package (sa/callgraph.py: lexical names, self methods, imported functions and
+# method names unique in textx); file-wide entries of ATTRIB (prefix "") are not propagated, they only name the file.
+_derived_cache = {}
+import sa.util as _util
+_util._resetters.append(_derived_cache.clear)
+DERIVE_DEPTH = 2
+def _derived(root):
+    if root in _derived_cache: return _derived_cache[root]
+    from sa.source import Index
+    from sa.callgraph import CallGraph
+    import os
+    d = {}
+    try:
+        ix = Index(repo=root, with_arpeggio=False); cg = CallGraph(ix)
+    except (OSError, SyntaxError) as e: raise AnalysisError("call graph of %s cannot be built: %s" % (root, e))
+    def key(qual):
+        for m in ix.modules.values():
+            if qual.startswith(m.name + ".") and qual[len(m.name) + 1:] in m.funcs:
+                return (os.path.relpath(m.path, root), qual[len(m.name) + 1:].replace("<locals>.", ""))
+        return None
+    def narrow(rel, q):
+        best = None
+        for f, pre, ps in ATTRIB:
+            if f == rel and pre != "" and (q == pre or q.startswith(pre + ".")):
+                if best is None or len(pre) > len(best[0]): best = (pre, ps)
+        return set(best[1]) if best else set()
+    keys = {}
+    for m in ix.modules.values():
+        for q, f in m.funcs.items(): keys[f.qual] = (os.path.relpath(m.path, root), q.replace("<locals>.", ""))
+    cur = {fq: narrow(*k) for fq, k in keys.items()}
+    for _ in range(DERIVE_DEPTH):
+        nxt = {fq: set(ps) for fq, ps in cur.items()}
+        for f, _call, kind, targets in cg.sites:
+            ps = cur.get(f.qual)
+            if not ps or kind not in ("func", "self", "modfunc", "unique-method"): continue
+            for c in targets:
+                cq = getattr(c, "qual", None)
+                if cq in nxt and not cq.endswith(".__init__"): nxt[cq] |= ps
+        cur = nxt
+    for fq, ps in cur.items():
+        if ps: d.setdefault(keys[fq], set()).update(ps)
+    _derived_cache[root] = d
+    return d
+def props_for(rel, q, root=None):
+    ps = tuple(_explicit(rel, q))
+    if root is None: return ps
+    d = _derived(root); extra = set()
+    qq = q
+    while True:                                        # a nested function belongs to what its enclosing function belongs to
+        extra |= d.get((rel, qq), set())
+        if "." not in qq: break
+        qq = qq.rsplit(".", 1)[0]
+    return tuple(ps) + tuple(sorted(extra - set(ps)))
 # ---------------------------------------------------------------------------------------------------------------- .T
 OBJ_CALLS = {"_find_obj_fqn", "find_obj", "_inner_resolve_link_rule_ref", "_find_referenced_obj", "find", "process_node", "call_obj_processors", "process",
              "get_model", "get_parent_of_type", "get_referenced_object", "get_unique_named_object", "get_unique_named_object_in_all_models", "resolve_model_path"}
@@ -147,7 +202,7 @@ def r_truth(root):
     for rel in FILES:
         t = load(root, rel)
         for fn, e, k, ok, why in _truth_scan(t):
-            q = qualname(fn); ps = props_for(rel, q)
+            q = qualname(fn); ps = props_for(rel, q, root)
             if not ps: continue
             inst += 1
             for p in ps: ob(p, p + ".T", rel, q, "truth test of %s (%s)%s" % (ast.unparse(e)[:60], k, " - " + why if why else ""), ok)
@@ -268,8 +323,8 @@ MEMO_EXCEPT = {   # (file, function, container) -> {input chain: reason}   (conf
         "ilookup_list": ("always a suffix of the one name list handed to get_next_matches, so its length determines it", "len(ilookup_list)"),
         "imatched_path": "de-duplication of different paths that reach the same object with the same remaining name parts is the purpose of the set (the first path wins)"},
 }
-def _memo_props(rel, q):
-    ps = props_for(rel, q)
+def _memo_props(rel, q, root=None):
+    ps = props_for(rel, q, root)
     if ps: return ps
     for f, pre, p in MEMO_ATTRIB:
         if f == rel: return p
@@ -386,7 +441,7 @@ def r_memo(root):
     for rel in MEMO_FILES:
         t = load(root, rel)
         for st, dtext, key, life, missing in _memo_scan(t, rel):
-            q = qualname(st); ps = _memo_props(rel, q)
+            q = qualname(st); ps = _memo_props(rel, q, root)
             inst += 1
             desc = "%s keyed by %s, lifetime: %s" % (dtext, ast.unparse(key) if key is not None else "nothing", life)
             for p in ps: ob(p, p + ".M", rel, q, desc, not missing)
@@ -538,7 +593,7 @@ def r_intern(root):
                         k = is_ctor(fi, n.value, n)
                         if k: hit = (" ".join(ast.unparse(n).split())[:100], "a %s is built once and kept on the class %s for every later use" % (k, tg.value.id))
                 if hit is None: continue
-                inst += 1; q = qualname(n); ps = set(props_for(rel, q)) | {"C19", "C16"}
+                inst += 1; q = qualname(n); ps = set(props_for(rel, q, root)) | {"C19", "C16"}
                 for p in sorted(ps):
                     ob(p, p + ".S", rel, q, hit[0], False)
                     out.append(Finding(p, p + ".S", rel, q, hit[0], hit[1] + ": occurrences that must be independent objects (each gets its own rule name / suppress flag / packrat table, is identified by identity during RREL evaluation, or carries its own flags) become one shared object", witness="the same literal / expression used twice in one grammar in different roles, or in two metamodels"))
@@ -677,7 +732,7 @@ def r_oneshot(root):
                 in_loop = [u for u in uses if any(isinstance(l, (ast.For, ast.While)) and not any(y is a for y in ast.walk(l)) and enclosing_func(l) is fn and not (isinstance(l, ast.For) and any(y is u for y in ast.walk(l.iter))) for l in ancestors(u))]
                 inst += 1
                 ok = len(uses) <= 1 and not in_loop
-                q = qualname(a); ps = set(props_for(rel, q)) | set(FILE_PROPS.get(rel, ())) | ({"C14", "C15", "C18"} if rel == MODEL and "model" in q else set())
+                q = qualname(a); ps = set(props_for(rel, q, root)) | set(FILE_PROPS.get(rel, ())) | ({"C14", "C15", "C18"} if rel == MODEL and "model" in q else set())
                 for p in sorted(ps): ob(p, p + ".I", rel, q, "%s = %s: %d use(s)" % (v, " ".join(ast.unparse(a.value).split())[:50], len(uses)), ok)
                 if not ok:
                     for p in sorted(ps): out.append(Finding(p, p + ".I", rel, q, " ".join(ast.unparse(a).split())[:100], "%s is a one-shot iterator and is used %s: every use after the first sees it exhausted and silently does nothing" % (v, "%d times" % len(uses) if len(uses) > 1 else "inside a loop"), witness="any input that reaches the second use with a non-empty sequence"))
@@ -704,7 +759,7 @@ def r_postponed_exit(root):
             ok = False
             if body and isinstance(body[0], ast.Return) and body[0].value is not None and ast.unparse(body[0].value) == v: ok = True
             elif len(body) >= 2 and isinstance(body[0], ast.Expr) and isinstance(body[0].value, ast.Yield) and body[0].value.value is not None and (ast.unparse(body[0].value.value) == v or (isinstance(body[0].value.value, ast.Tuple) and ast.unparse(body[0].value.value.elts[0]) == v)) and isinstance(body[1], ast.Return): ok = True
-            q = qualname(n); ps = set(props_for(rel, q)) | {"C09"}
+            q = qualname(n); ps = set(props_for(rel, q, root)) | {"C09"}
             for p in sorted(ps): ob(p, p + ".Q", rel, q, "if %s is Postponed: leave with it" % v, ok)
             if not ok:
                 for p in sorted(ps): out.append(Finding(p, p + ".Q", rel, q, " ".join(ast.unparse(n).split())[:100], "the Postponed value %s is not handed straight back (return / yield + return): the lookup goes on with half-resolved data and binds or fails depending on the order in which references are written" % v, witness="a scope redirection / navigation that is postponed while the name also exists locally"))
